@@ -124,7 +124,14 @@ def run(tier, seed):
                 forms = ["{%s} - 2 * {%s}", "{%s} / {%s}", "{%s} ** 2 + {%s}", "3 * {%s} - {%s} / 7"]
                 sub += "".join("Dgate(%s, %s) | %d\n" % (rng.choice(forms) % tuple(rng.sample(ps, 2)), rng.choice(forms) % tuple(rng.sample(ps, 2)), modes[0]) for _ in range(3))
                 sub += "".join("Kgate({%s}) | %d\n" % (p_, modes[0]) for p_ in ps)
-                kw = "(%s)" % ", ".join("%s=%s" % (p_, rng.choice(["0.5", "0.125", "3", "1.75", "7"])) for p_ in ps)
+                if i % 4 == 3:
+                    # the including script is itself a template and hands its own parameters, named like the included
+                    # program's parameters but crosswise, on as values (a={b}, b=0.25): simultaneous binding, in every run
+                    rot = ps[1:] + ps[:1]
+                    kw = "(%s)" % ", ".join("%s=%s" % (p_, "{%s}" % q_ if k_ % 2 == 0 or rng.random() < 0.5 else rng.choice(["0.25", "3", "1.75"]))
+                                            for k_, (p_, q_) in enumerate(zip(ps, rot)))
+                else:
+                    kw = "(%s)" % ", ".join("%s=%s" % (p_, rng.choice(["0.5", "0.125", "3", "1.75", "7"])) for p_ in ps)
             d = os.path.join(scratch, "I%d" % i)
             os.makedirs(d)
             open(os.path.join(d, "sub.xbb"), "w").write(sub)
